@@ -205,8 +205,9 @@ func prepareReassembly(bs []Bundle) error {
 			return fmt.Errorf("next fragment starts at offset %d, gap from %d to %d", fragOff, lastIndex, fragOff)
 		} else if payloadBlock, err := b.PayloadBlock(); err != nil {
 			return err
-		} else {
-			lastIndex = fragOff + uint64(len(payloadBlock.Value.(*PayloadBlock).Data()))
+		} else if fragEnd := fragOff + uint64(len(payloadBlock.Value.(*PayloadBlock).Data())); fragEnd > lastIndex {
+			// A fragment might be contained within the previous ones, then it must not decrease the last index.
+			lastIndex = fragEnd
 		}
 	}
 
@@ -239,6 +240,11 @@ func mergeFragmentPayload(bs []Bundle) (data []byte, err error) {
 			return
 		}
 		fragPayloadData = fragPayloadBlock.Value.(*PayloadBlock).Data()
+
+		// Skip fragments whose payload is already covered by the previous ones.
+		if fragStartIndex+len(fragPayloadData) <= lastIndex {
+			continue
+		}
 
 		data = append(data, fragPayloadData[lastIndex-fragStartIndex:]...)
 		lastIndex = fragStartIndex + len(fragPayloadData)
